@@ -1478,7 +1478,7 @@ func build(tier string) []*vkit.Scenario {
 func main() {
 	vkit.Main(&vkit.Spec{
 		Property: "C16", Level: "model_checking",
-		Rule: "core: one scenario = epoll mode x operation list of thread A (length <= 3 quick / <= 4 thorough) over SetReadDeadline/SetWriteDeadline/SetDeadline(now+5s | now+9s | zero time; plus lists with the current instant and a past instant for each setter: alone, after a future deadline of the same direction, across directions, after time passed, followed by renewal / clear / Write / Close, behind a backlog - thorough: every list of length <= 2 over the extended alphabet), Write(1) / Writev(2x1) (fit into the socket, K=3), Write(5) (leaves a backlog of 2), peer drain, 3 s sleep, Close; lists are pruned only where the last operation cannot matter (a clear with nothing to clear, a write without a write deadline, a drain with nothing sent, anything but one deadline set after Close, a trailing sleep); plus 8 lists that end in a close by nbio itself (write overflow, EPIPE after a peer reset); x origin of the connection: every list on an added connection, 22 representative lists (one expiry per kind of deadline, set-clear-set, renewal, Write that empties / leaves a backlog, drain, Close; thorough: every list of length <= 2) on connections from DialAsync / DialAsyncTimeout(7 s) whose connect is completed by a network thread that runs concurrently with the dial call (thorough: also a synchronous connect), 4 lists on the connection left by a dial timeout that fired, 8 lists issued INSIDE the dial callback (a write deadline with a backlog that must expire, read / combined deadline, a callback that sleeps 8 s > dial timeout; the clock starts with the callback). A clock thread fires the earliest virtual timer; every placement of a firing relative to A, the poller and the timer callbacks within the preemption bound (listed per scenario; free choices - which thread runs when one blocks or ends, which of two timers with equal deadlines fires - are always complete). keepalive: one scenario = HTTP | WebSocket x epoll mode x list of steps (seconds slept before each unit, drawn from values below, equal to and above the keep-alive time; kind of unit: HTTP complete request | POST head | POST body, WebSocket text | binary | ping | pong | first / middle / last fragment of a message; the gap lists with the default kind - request, text message - up to length 2, every other kind alone and in the listed combinations; 'calm' scenarios - timers fire only when every thread is blocked - cover every ordered pair (thorough: triple) of WebSocket kinds with gaps that make each unit depend on its predecessor's renewal, fragmented messages with control frames in between and HTTP sequences of up to 4 units; Upgrader.KeepaliveTime 4 s by default and 0 (disabled) | 7 | 9 s in dedicated lists with gaps below and beyond the HTTP keep-alive time; 'early' scenarios put the first request into the socket before AddConnNonTLSNonBlocking is called) x handler duration (instantaneous, or 3 of the 7 s / 2 of the 4 s of virtual time spent inside the HTTP handler / the WebSocket message handler, during which the clock runs); firings while no exchange is in flight are placed by the scheduler, firings in the middle of an exchange at three offered points (after the client's write, at handler entry, after the upgrade) within the deviation bound. udp: one scenario = epoll mode x Config.UDPReadTimeout (0 = disabled | 5 s) x list of datagrams (gap in seconds below / equal to / above the timeout, remote A | B, handler action: none | SetReadDeadline(now+9s) | SetReadDeadline(zero) on the session) sent to a UDP server connection served by the poller; timers fire at quiescence, every interleaving of the poller, the timer callbacks and the notification thread within the preemption bound. non-trivial = at least one deadline timer of the connection fired in the scenario (or, with keep-alive / the UDP timeout disabled, the connection / session was open at the end as it must be)",
+		Rule: "core: one scenario = epoll mode x operation list of thread A (length <= 3 quick / <= 4 thorough) over SetReadDeadline/SetWriteDeadline/SetDeadline(now+5s | now+9s | zero time; plus lists with the current instant and a past instant for each setter: alone, after a future deadline of the same direction, across directions, after time passed, followed by renewal / clear / Write / Close, behind a backlog - thorough: every list of length <= 2 over the extended alphabet), Write(1) / Writev(2x1) (fit into the socket, K=3), Write(5) (leaves a backlog of 2), peer drain, 3 s sleep, Close; lists are pruned only where the last operation cannot matter (a clear with nothing to clear, a write without a write deadline, a drain with nothing sent, anything but one deadline set after Close, a trailing sleep); plus 8 lists that end in a close by nbio itself (write overflow, EPIPE after a peer reset); x origin of the connection: every list on an added connection, 22 representative lists (one expiry per kind of deadline, set-clear-set, renewal, Write that empties / leaves a backlog, drain, Close; thorough: every list of length <= 2) on connections from DialAsync / DialAsyncTimeout(7 s) whose connect is completed by a network thread that runs concurrently with the dial call (thorough: also a synchronous connect), 8 deadline-only lists (one expiry per kind, renewal, clear, Close) on a dialed UDP connection - a datagram socket that reads for itself - that has received 0, 1 or 2 datagrams before the operations, 4 lists on the connection left by a dial timeout that fired, 8 lists issued INSIDE the dial callback (a write deadline with a backlog that must expire, read / combined deadline, a callback that sleeps 8 s > dial timeout; the clock starts with the callback). A clock thread fires the earliest virtual timer; every placement of a firing relative to A, the poller and the timer callbacks within the preemption bound (listed per scenario; free choices - which thread runs when one blocks or ends, which of two timers with equal deadlines fires - are always complete). keepalive: one scenario = HTTP | WebSocket x epoll mode x list of steps (seconds slept before each unit, drawn from values below, equal to and above the keep-alive time; kind of unit: HTTP complete request | POST head | POST body, WebSocket text | binary | ping | pong | first / middle / last fragment of a message; the gap lists with the default kind - request, text message - up to length 2, every other kind alone and in the listed combinations; 'calm' scenarios - timers fire only when every thread is blocked - cover every ordered pair (thorough: triple) of WebSocket kinds with gaps that make each unit depend on its predecessor's renewal, fragmented messages with control frames in between and HTTP sequences of up to 4 units; Upgrader.KeepaliveTime 4 s by default and 0 (disabled) | 7 | 9 s in dedicated lists with gaps below and beyond the HTTP keep-alive time; 'early' scenarios put the first request into the socket before AddConnNonTLSNonBlocking is called) x handler duration (instantaneous, or 3 of the 7 s / 2 of the 4 s of virtual time spent inside the HTTP handler / the WebSocket message handler, during which the clock runs); firings while no exchange is in flight are placed by the scheduler, firings in the middle of an exchange at three offered points (after the client's write, at handler entry, after the upgrade) within the deviation bound. udp: one scenario = epoll mode x Config.UDPReadTimeout (0 = disabled | 5 s) x list of datagrams (gap in seconds below / equal to / above the timeout, remote A | B, handler action: none | SetReadDeadline(now+9s) | SetReadDeadline(zero) on the session) sent to a UDP server connection served by the poller; timers fire at quiescence, every interleaving of the poller, the timer callbacks and the notification thread within the preemption bound. non-trivial = at least one deadline timer of the connection fired in the scenario (or, with keep-alive / the UDP timeout disabled, the connection / session was open at the end as it must be)",
 		Assumptions: []string{
 			"virtual time: the clock only moves when a timer fires and then jumps exactly to that timer's deadline; nbio reads it through time.Now/time.Until/AfterFunc/Reset. 'Never early' and 'at the deadline' are judged on the virtual time of the FIRING (the instant the runtime starts the AfterFunc callback), not on the time of the close notification, which nbio delivers asynchronously",
 			"reference model per direction: deadline = last non-zero Set*Deadline that returned; none after a zero-time set, after Close, after any close notification, and (write direction) after a Write/Writev call that returned with an empty backlog. A backlog emptied later by the poller's flush does not clear the write deadline in the model (SetWriteDeadline's doc comment), but a connection that is still open at the end in that situation would not be reported either",
